@@ -117,6 +117,33 @@ def kraus_sum(repo: Repo) -> List[Ob]:
                     obs.append(ok("KRAUS-SUM", fi, key, P, s, "accumulator starts at zero and every K_i rho K_i^dagger is added"))
                 else:
                     obs.append(bad("KRAUS-SUM", fi, key, P, s, f"accumulator `{acc}` is not initialised with zeros before the loop"))
+    # vectorised form:  vec(K rho K^dagger) = (K (x) conj K) vec(rho) for the row-major flattening that reshape/ravel/flatten perform
+    # (column-major: conj K (x) K).  The two factors of the kron and the flattening order have to belong together.
+    from ..domains import is_conj
+    for fi in funcs:
+        for c in [x for x in walk_no_nested(fi.node) if isinstance(x, ast.Call) and call_np(x) == "kron" and len(x.args) == 2]:
+            a0, a1 = c.args
+            c0 = is_conj(a0) is not None or (method_call(a0) and method_call(a0)[1] in ("conj", "conjugate"))
+            c1 = is_conj(a1) is not None or (method_call(a1) and method_call(a1)[1] in ("conj", "conjugate"))
+            base0 = src(is_conj(a0)) if is_conj(a0) is not None else (src(method_call(a0)[0]) if c0 else src(a0))
+            base1 = src(is_conj(a1)) if is_conj(a1) is not None else (src(method_call(a1)[0]) if c1 else src(a1))
+            if base0 != base1 or c0 == c1:
+                continue           # not a K (x) conj K pair
+            sites += 1
+            flat = [y for y in walk_no_nested(fi.node) if isinstance(y, ast.Call) and ((method_call(y) and method_call(y)[1] in ("reshape", "flatten", "ravel")) or call_np(y) in ("reshape", "ravel"))]
+            col_major = any(any(k.arg == "order" and isinstance(k.value, ast.Constant) and k.value.value == "F" for k in y.keywords) for y in flat)
+            mixed = col_major and not all(any(k.arg == "order" for k in y.keywords) for y in flat)
+            want_conj_first = col_major
+            key = "superoperator-order"
+            if mixed:
+                obs.append(skip("KRAUS-SUM", fi, key, P, c, "row-major and column-major flattenings are mixed"))
+            elif (c0 and want_conj_first) or (c1 and not want_conj_first):
+                obs.append(ok("KRAUS-SUM", fi, key, P, c, "the superoperator's factor order matches the flattening order"))
+            else:
+                obs.append(bad("KRAUS-SUM", fi, key, P, c,
+                               f"`{src(c)[:50]}` is applied to a {'column' if col_major else 'row'}-major flattening of rho ({'order=F' if col_major else 'reshape/ravel/flatten default'}): "
+                               f"vec(K rho K^dagger) is ({'conj K (x) K' if col_major else 'K (x) conj K'}) vec(rho) there – with the factors the other way round the channel applied is "
+                               "conj(K) rho K^T, equal to K rho K^dagger for real operators only"))
     if sites < 5:
         raise AnalysisError(f"KRAUS-SUM: {sites} accumulation sites (floor 5)")
     return obs
